@@ -13,14 +13,26 @@ def aave_reject(ctx):
     w = sym_portfolio(ctx, p["shape"])
     if p["closed"]:
         w.market.is_open = False
-    if p["warm"]:
-        warm_views(w.market)
+    views0 = warm_views(w.market) if p["warm"] else None
     before = w.raw()
     ok, label, args = apply_op(ctx, w, p["op"], p["tok"], p["tok2"])
     ctx.outcome("accepted" if ok else "rejected:" + label)
     after = w.raw()
     if not ok:
         states_equal(ctx, before, after, f"aave.{p['op']} rejected[{label}]")
+        if views0 is not None:
+            # positions and debts as the market REPORTS them (derived views) are part of what must be as before
+            from ..symx import is_sym
+
+            views1 = warm_views(w.market)
+            items = []
+            for k in views0:
+                a, b = views0[k], views1.get(k)
+                if not is_sym(a) and not is_sym(b) and isinstance(a, D) and isinstance(b, D) and not (a.is_finite() and b.is_finite()):
+                    items.append((f"aave.{p['op']} rejected[{label}]: reported {_gen(k)} unchanged", str(a) == str(b)))
+                else:
+                    items.append((f"aave.{p['op']} rejected[{label}]: reported {_gen(k)} unchanged", a == b if b is not None else False))
+            ctx.check_all(items)
     else:
         if p["closed"]:
             ctx.check(f"aave.{p['op']}: closed market rejects the operation", False)
@@ -39,6 +51,12 @@ def aave_reject(ctx):
             ctx.check("CANARY accepted operation changes nothing", sand(*eqs))
         else:
             ctx.check("CANARY accepted operation changes nothing", False)
+
+
+def _gen(k):
+    import re
+
+    return re.sub(r"\[[A-Z.]+\]", "[<tok>]", k)
 
 
 def scenarios(tier):
